@@ -104,6 +104,34 @@ var vTemplates = []string{
 	"@lexer\nA = 'a'## 'b'\n@parser\n@start s = A\n",
 	// 11: right qualifier with one digit and sign position
 	"@lexer\nA = 'a'\nN = 'n'\n@parser\n@start e = e A e @right(#)\n | N\n",
+	// 12: macro body
+	"@lexer\n@macro MC = ##\nA = MC 'a'\n@parser\n@start s = A\n",
+	// 13: mode name in a declaration
+	"@lexer\nA = 'a'\n@mode ## {\nB = 'b'\n}\n@parser\n@start s = A\n",
+	// 14: @external name
+	"@lexer\nA = 'a'\n@external ##\n@parser\n@start s = A\n",
+	// 15: @list separator
+	"@lexer\nA = 'a'\nB = 'b'\n@parser\n@start s = @list(A, ##)\n",
+	// 16: after a line continuation
+	"@lexer\nA = 'a'\nB = 'b'\n@parser\n@start s = A \\\n ## B\n",
+	// 17: inside a comment and right after it
+	"@lexer\nA = 'a' // ##\n#\n@parser\n@start s = A\n",
+	// 18: keyword position
+	"@lexer\nA = 'a'\n@parser\n@## s = A\n",
+	// 19: inside a group
+	"@lexer\nA = ('a' ## 'b')+\n@parser\n@start s = A\n",
+	// 20: right operand of a class difference
+	"@lexer\nA = ~[a] - [##]\n@parser\n@start s = A\n",
+	// 21: fragment expression
+	"@lexer\nA = 'a'\n@frag ## @discard\n@parser\n@start s = A\n",
+	// 22: a second rule marked @start, name symbolic
+	"@lexer\nA = 'a'\n@parser\n@start s = A\n@start ## = A\n",
+	// 23: between a term and the alternative bar
+	"@lexer\nA = 'a'\nB = 'b'\n@parser\n@start s = A ## | B\n",
+	// 24: macro referring to itself or to others
+	"@lexer\n@macro MA = 'x' ##\n@macro MB = MA\nA = MB\n@parser\n@start s = A\n",
+	// 25: action keyword
+	"@lexer\nA = 'a' @##\n@parser\n@start s = A\n",
 }
 
 // H_Holes (C12): ParseLox on a template whose holes are arbitrary bytes. With
